@@ -97,21 +97,23 @@ void MEDDLY::binary_operation::compute(const dd_edge &ar1,
 #ifdef ALLOW_OLD_BINARY_0_17_6
     if (new_style) {
         node_handle resp;
+        edge_value resv;
         compute(resF->getMaxLevelIndex(), ~0,
                 ar1.getEdgeValue(), ar1.getNode(),
                 ar2.getEdgeValue(), ar2.getNode(),
-                res.setEdgeValue(), resp);
-        res.set(resp);
+                resv, resp);
+        res.set(resv, resp);
     } else {
         computeDDEdge(ar1, ar2, res, true);
    }
 #else
     node_handle resp;
+    edge_value resv;
     compute(resF->getMaxLevelIndex(), ~0,
             ar1.getEdgeValue(), ar1.getNode(),
             ar2.getEdgeValue(), ar2.getNode(),
-            res.setEdgeValue(), resp);
-    res.set(resp);
+            resv, resp);
+    res.set(resv, resp);
 #endif
 #ifdef DEVELOPMENT_CODE
     resF->validateIncounts(true, __FILE__, __LINE__, getName());
@@ -131,6 +133,7 @@ void MEDDLY::binary_operation::computeTemp(const dd_edge &ar1,
     }
     if (new_style) {
         node_handle resp;
+        edge_value resv;
         // THIS vvvvv is an ugly hack
         int toplevel = arg1F->isForRelations()
             ?  MXD_levels::topUnprimed(ar1.getLevel(), ar2.getLevel())
@@ -138,8 +141,8 @@ void MEDDLY::binary_operation::computeTemp(const dd_edge &ar1,
         compute(toplevel, ~0,
                 ar1.getEdgeValue(), ar1.getNode(),
                 ar2.getEdgeValue(), ar2.getNode(),
-                res.setEdgeValue(), resp);
-        res.set(resp);
+                resv, resp);
+        res.set(resv, resp);
     } else {
         computeDDEdge(ar1, ar2, res, false);
     }
